@@ -24,13 +24,13 @@ func leafObs(prop string) []Ob {
 			Req: []string{`neq($responseType, "")`, "true(op.ContainsResponseType($client.ResponseTypes(), $responseType))"}},
 	}
 	cryptoLeaf := []Ob{
-		{ID: "E8.leaf.crypto.decrypt", Fn: "op.(*aesCrypto).Decrypt", P: []string{"c", "s"}, Kind: "ret any", Pat: "ret(res(0, crypto.DecryptAES($s, $c.key)), _)", Max: 1},
-		{ID: "E8.leaf.crypto.encrypt", Fn: "op.(*aesCrypto).Encrypt", P: []string{"c", "s"}, Kind: "ret any", Pat: "ret(res(0, crypto.EncryptAES($s, $c.key)), _)", Max: 1},
-		{ID: "E8.leaf.crypto.key", Fn: "op.NewAESCrypto", P: []string{"key"}, Kind: "ret any", Pat: "ret(&aesCrypto{key: conv(string, $key[:32])})", Max: 1},
+		{ID: "E8.leaf.crypto.decrypt", Fn: "op.(*aesCrypto).Decrypt", P: []string{"c", "s"}, Kind: "ret any", Pat: "ret(res(0, crypto.DecryptAES($s, $c.key)), _)", Max: 1, Only: true},
+		{ID: "E8.leaf.crypto.encrypt", Fn: "op.(*aesCrypto).Encrypt", P: []string{"c", "s"}, Kind: "ret any", Pat: "ret(res(0, crypto.EncryptAES($s, $c.key)), _)", Max: 1, Only: true},
+		{ID: "E8.leaf.crypto.key", Fn: "op.NewAESCrypto", P: []string{"key"}, Kind: "ret any", Pat: "ret(&aesCrypto{key: conv(string, $key[:32])})", Max: 1, Only: true},
 	}
 	issuer := []Ob{
-		{ID: "E8.leaf.issuer.from-context", Fn: "op.IssuerFromContext", P: []string{"ctx"}, Kind: "ret any", Pat: "ret($iss)", Max: 1, Req: []string{"def($iss, $ctx.Value(op.issuerKey).(string), 0)"}},
-		{ID: "E8.leaf.issuer.to-context", Fn: "op.ContextWithIssuer", P: []string{"ctx", "issuer"}, Kind: "ret any", Pat: "ret(context.WithValue($ctx, op.issuerKey, $issuer))", Max: 1},
+		{ID: "E8.leaf.issuer.from-context", Fn: "op.IssuerFromContext", P: []string{"ctx"}, Kind: "ret any", Pat: "ret($iss)", Max: 1, Only: true, Req: []string{"def($iss, $ctx.Value(op.issuerKey).(string), 0)"}},
+		{ID: "E8.leaf.issuer.to-context", Fn: "op.ContextWithIssuer", P: []string{"ctx", "issuer"}, Kind: "ret any", Pat: "ret(context.WithValue($ctx, op.issuerKey, $issuer))", Max: 1, Only: true},
 		{ID: "E8.leaf.issuer.interceptor", Fn: "op.(*IssuerInterceptor).setIssuerCtx", P: []string{"i", "w", "r", "next"}, Kind: "call", Pat: "op.ContextWithIssuer($r.Context(), $i.issuerFromRequest($r))", Max: 1},
 	}
 	bearer := []Ob{
